@@ -1,7 +1,7 @@
 (* C14 — lemmas, part 3: a wildcard in a dictionary word stands for exactly one character,
    provided literal and wildcard branches never compete. *)
 From Coq Require Import ZArith List Bool Lia.
-From FV Require Import Generated.Consts C14.Model C14.Spec C14.ProofsDict C14.ProofsMatch.
+From FV Require Import Generated.Consts C14.Model C14.Spec C14.ProofsDict C14.ProofsMatch C14.ProofsSem.
 Import ListNotations.
 Open Scope Z_scope.
 
@@ -44,37 +44,44 @@ Proof.
   - intros H. exists star. auto.
 Qed.
 
+(* without competition "the matcher follows w on s" is "s begins with an instance of w" *)
+Lemma follows_nc w : forall n s, nc n -> has_path n w = true ->
+  follows n w s <-> (length w <= length s)%nat /\ pmatch w (firstn (length w) s).
+Proof.
+  induction w as [|x w IH]; intros n s Hn Hp.
+  - cbn. split; [intros _; split; [lia | constructor] | auto].
+  - destruct s as [|c s]; [cbn; split; [contradiction | intros [H _]; lia]|].
+    rewrite has_path_cons in Hp. destruct (child_get x (children n)) as [m|] eqn:Ex; [|discriminate].
+    cbn [follows length firstn]. split.
+    + intros [m' [Hx [Hc Hf]]]. assert (m' = m) by congruence. subst m'.
+      apply (IH m s (nc_child n x m Hn Ex) Hp) in Hf as [Hl Hm]. split; [lia|].
+      constructor; [|exact Hm]. destruct Hc as [->|[-> _]]; auto.
+    + intros [Hl Hm]. inversion Hm as [|? ? ? ? Hxc Hm']; subst. exists m. split; [exact Ex|]. split.
+      * destruct Hxc as [Hxs|Hxs]; [subst x | left; exact Hxs].
+        destruct (Z.eq_dec star c) as [E|E]; [left; exact E|]. right. split; [reflexivity|].
+        destruct (child_get c (children n)) as [m2|] eqn:Ec; [|reflexivity]. exfalso. apply E. symmetry.
+        apply (Hn [] c); cbn [app]; apply has_path_single; eauto.
+      * apply (IH m s (nc_child n x m Hn Ex) Hp). split; [lia | exact Hm'].
+Qed.
+
+(* hence, as a corollary of the general semantics (ProofsSem.v): *)
 Lemma starts_loop_wild s : forall n pos, 0 <= pos -> nc n -> is_end n = false ->
   0 <= starts_loop n s pos <->
   exists w s1 s2, s = s1 ++ s2 /\ w <> [] /\ terminal n w = true /\ pmatch w s1.
 Proof.
-  induction s as [|c s IH]; intros n pos Hpos Hn He; cbn [starts_loop].
-  - rewrite He. split; [lia|]. intros [w [s1 [s2 [Hs [Hne [_ Hm]]]]]].
-    destruct s1; [|discriminate]. inversion Hm. congruence.
-  - assert (Hback : forall w s1 s2, c :: s = s1 ++ s2 -> w <> [] -> terminal n w = true -> pmatch w s1 ->
-              exists y w' s1' m, w = y :: w' /\ s = s1' ++ s2 /\ contains_child n c = Some m /\
-                                 terminal m w' = true /\ pmatch w' s1').
-    { intros w s1 s2 Hs Hne Ht Hm. destruct w as [|y w']; [congruence|].
-      inversion Hm as [|y0 c0 w0 s1' Hy Hm' E1 E2]; subst. cbn [app] in Hs. inversion Hs; subst.
-      rewrite terminal_cons in Ht. destruct (child_get y (children n)) as [m|] eqn:Ey; [|discriminate].
-      exists y, w', s1', m. repeat split; try assumption.
-      apply (contains_child_nc n c0 m y Hn Ey Hy). }
-    destruct (contains_child n c) as [m|] eqn:Ec.
-    + destruct (contains_child_inv n c m Ec) as [x [Hx Ex]].
-      destruct (is_end m) eqn:Em.
-      * split; [intros _ | lia]. exists [x], [c], s. repeat split; [discriminate | | constructor; [assumption | constructor]].
-        rewrite terminal_cons, Ex. exact Em.
-      * rewrite (IH m (pos + 1) ltac:(lia) (nc_child n x m Hn Ex) Em). split.
-        -- intros [w [s1 [s2 [Hs [Hne [Ht Hm]]]]]]. exists (x :: w), (c :: s1), s2.
-           repeat split; [subst; reflexivity | discriminate | | constructor; assumption].
-           rewrite terminal_cons, Ex. exact Ht.
-        -- intros [w [s1 [s2 [Hs [Hne [Ht Hm]]]]]].
-           destruct (Hback w s1 s2 Hs Hne Ht Hm) as [y [w' [s1' [m2 [Hw [Hs' [Hc [Ht' Hm']]]]]]]].
-           assert (m2 = m) by congruence. subst m2.
-           exists w', s1', s2. repeat split; try assumption.
-           intros ->. rewrite terminal_nil in Ht'. congruence.
-    + split; [lia|]. intros [w [s1 [s2 [Hs [Hne [Ht Hm]]]]]].
-      destruct (Hback w s1 s2 Hs Hne Ht Hm) as [y [w' [s1' [m2 [_ [_ [Hc _]]]]]]]. discriminate.
+  intros n pos Hpos Hn He. rewrite (starts_loop_mlen n s pos Hpos). split.
+  - destruct (mlen n s) as [k|] eqn:Ek; [intros _ | lia].
+    apply (mlen_some_sem s n k He) in Ek as [w [Hl [Hf [Ht _]]]].
+    apply (follows_nc w n s Hn (terminal_has_path n w Ht)) in Hf as [Hlen Hm].
+    exists w, (firstn (length w) s), (skipn (length w) s).
+    split; [symmetry; apply firstn_skipn|]. split; [destruct w; [discriminate | discriminate]|]. auto.
+  - intros [w [s1 [s2 [Hs [Hne [Ht Hm]]]]]].
+    assert (Hf : follows n w s).
+    { apply (follows_nc w n s Hn (terminal_has_path n w Ht)).
+      assert (Hl : length w = length s1) by (clear -Hm; induction Hm; cbn; congruence). subst s. rewrite app_length. split; [lia|].
+      rewrite Hl, firstn_app_exact. exact Hm. }
+    destruct (mlen n s) as [k|] eqn:Ek; [lia|].
+    rewrite (proj1 (mlen_none_sem s n He) Ek w Hne Hf) in Ht. discriminate.
 Qed.
 
 Lemma mlen_some_iff r u : (exists k, mlen r u = Some k) <-> 0 <= starts_loop r u 0.
